@@ -198,7 +198,8 @@ let run_hx_hand (ops : string list) : string =
     | 'c' -> ap OClear; cv ()
     | 'D' -> "0 dead 1"
     | 'I' -> if len (a 0) < 0 || int_of_z (a 1) >= len (a 0) then "skip" else (saved := Some (VersionModel.vver !c); "it")
-    | 'U' -> (match !saved with None -> "skip" | Some v -> if BinInt.Z.eqb v (VersionModel.vver !c) then "ok" else "throw")
+    | 'U' | 'C' -> (match !saved with None -> "skip" | Some v -> if BinInt.Z.eqb v (VersionModel.vver !c) then "ok" else "throw")
+    | 'E' -> if args = [] || int_of_z (a 0) <> 0 then "ok" else "throw"
     | _ -> "?") ops in
   String.concat "|" recs
 
